@@ -6,6 +6,8 @@ import Driver.FileCmd
 import Driver.JobCmd
 import Driver.C16Cmd
 import Driver.C04Cmd
+import Driver.C08Cmd
+import Driver.C10Cmd
 
 def main (args : List String) : IO UInt32 :=
   match args with
@@ -19,4 +21,6 @@ def main (args : List String) : IO UInt32 :=
   | ["corr", "job"] => Driver.lineLoop Driver.jobLine
   | ["corr", "c16"] => Driver.c16Cmd
   | ["corr", "c04"] => Driver.c04Cmd
+  | ["corr", "c08"] => Driver.lineLoop Driver.c08Line
+  | ["corr", "c10"] => Driver.lineLoop Driver.c10Line
   | _ => do IO.eprintln "usage: driver <trace|corr> …"; pure 2
